@@ -570,10 +570,25 @@ func ScalarCase(t *rapid.T, label string) (*ref.SNode, []Probe) {
 			// numbers written with trailing zeros (shown as written by the AST, equal by value)
 			{Kind: ref.KNumber, Tok: "2.50"}, {Kind: ref.KNumber, Tok: "3.0"}, {Kind: ref.KNumber, Tok: "0.10"},
 		}
+		if rapid.IntRange(0, 4).Draw(t, label+"EnumBig") == 0 {
+			// long lists (a lookup structure instead of a scan is a natural change for these)
+			cnt = rapid.IntRange(12, 40).Draw(t, label+"EnumBigN")
+		}
 		for i := 0; i < cnt; i++ {
 			it := rapid.SampledFrom(pool).Draw(t, label+"EnumItem")
 			if seen[it.Tok] {
-				continue
+				if cnt > 6 {
+					// filler items keep long lists long
+					k := len(items)
+					if k%2 == 0 {
+						it = ref.EnumItem{Kind: ref.KNumber, Tok: fmt.Sprint(200 + k)}
+					} else {
+						it = ref.EnumItem{Kind: ref.KString, Tok: fmt.Sprintf(`"f%d"`, k), Str: fmt.Sprintf("f%d", k)}
+					}
+				}
+				if seen[it.Tok] {
+					continue
+				}
 			}
 			seen[it.Tok] = true
 			items = append(items, it)
@@ -609,6 +624,11 @@ func ScalarCase(t *rapid.T, label string) (*ref.SNode, []Probe) {
 				add(strVal(it.Tok), "enum:kind-flip")
 			}
 		}
+	}
+	// const next to other value rules (the example still has to obey all of them)
+	if (n.Lit == ref.KNumber || n.Lit == ref.KString) && len(n.Rules) > 0 && n.Rule("const") == nil && n.Rule("enum") == nil && !n.IsAny() &&
+		rapid.IntRange(0, 7).Draw(t, label+"AlsoConst") == 0 {
+		n.Rules = append(n.Rules, BoolRule("const", rapid.IntRange(0, 3).Draw(t, label+"AlsoConstTrue") > 0))
 	}
 	switch nullable {
 	case 0:
